@@ -37,6 +37,11 @@ CLAIMED = {
    note="Trusted: Lean kernel; D(cfg) formula; datasheet rate needs C16's refresh_interval_not_longer (proved) and the tREFI fix. Partial: grant latency bound.",
    technique="Lean 4 proof (counter periodicity by induction, timeline invariant with ghost) + co-simulation + deadline monitor",
    design="§6 C04"),
+ "C19": dict(
+   text="Lean transcription of phy/model.py (Model/SimPhy) co-simulated cycle-exactly against the real SDRAMPHYModel on random legal DFI traces (all memtypes, masks, auto-precharge, back-to-back bursts, init images under both address mappings), outputs and final memories compared; the same traces are run through an independent reference DRAM with data (Spec/DramData) and the implementation must agree with it; theorems relate the transcription to the reference.",
+   note="Trusted: Lean kernel; Spec/DramData.lean (the independent DRAM); the legal-trace generator; rddata_valid judged on phase 0 only.",
+   technique="Lean 4 proof (refinement SimPhy -> reference DRAM on legal traces) + co-simulation + reference comparison",
+   design="§6 C19"),
  "C06": dict(
    text="Lean theorems over the parametric address-map model for every geometry satisfying WF: left and right inverse (injective, onto), A10 never a column bit, row part, consecutive walk; model tied to the real crossbar routing and _AddressSlicer by exhaustive (small geometries) and dense evaluation in Migen's simulator.",
    note="Trusted: Lean kernel, Spec (Loc/addrOf/encodeCol in Props/C06.lean), correspondence harness; the steerer's rank/bank split is replicated in the harness and re-observed end-to-end by C01/C02 whole-core runs.",
